@@ -213,6 +213,14 @@ def call_builtin(m: Any, name: str, args: list[V], kwargs: dict[str, V], node: a
         kind = "deque" if name in ("deque", "Deque") else "list"
         return VHeapRef(m.ctx.alloc(kind, sv), kind)
     if name == "reversed":
+        # an area that declares rev_for_iter gets a real (stateful, shareable) iterator over the reversed sequence
+        revf = m.world.spec_fns.get("rev_for_iter")
+        sv0 = m.seq_value(args[0]) if not isinstance(args[0], VSeq) else args[0]
+        if revf is not None and sv0 is not None and not m.spec:
+            try:
+                return VHeapRef(m.ctx.alloc("iter", revf(sv0)), "iter")
+            except EngineError:
+                pass
         return VPy(("reversed", args[0]))
     if name == "iter":
         sv = m.seq_value(args[0]) if not isinstance(args[0], VSeq) else args[0]
